@@ -29,7 +29,12 @@ type File struct {
 }
 
 // DefaultPath is the committed known-findings file.
-const DefaultPath = "/verif/known_findings.json"
+var DefaultPath = func() string {
+	if r := os.Getenv("VERIF_ROOT"); r != "" {
+		return r + "/known_findings.json"
+	}
+	return "/verif/known_findings.json"
+}()
 
 // Load reads the file; a missing file is an empty list.
 func Load(path string) (*File, error) {
